@@ -4,6 +4,12 @@ Require Import V.Base.MachineInt V.Model.WireBytes.
 From Coq Require Import ZifyBool.
 Open Scope Z_scope.
 
+Lemma Zlength_nonneg {A} (l : list A) : 0 <= Zlength l.
+Proof. rewrite Zlength_correct. lia. Qed.
+
+Lemma Zlength_app {A} (a b : list A) : Zlength (a ++ b) = Zlength a + Zlength b.
+Proof. rewrite !Zlength_correct, app_length. lia. Qed.
+
 Lemma Zlength_le_enc n v : Zlength (le_enc n v) = Z.of_nat n.
 Proof. revert v. induction n; intros v; cbn [le_enc].
   - reflexivity.
@@ -59,7 +65,8 @@ Proof. unfold slice. change (Z.to_nat 0) with O. cbn [skipn].
 Lemma slice_skip pre r off len : 0 <= off -> slice (pre ++ r) (Zlength pre + off) len = slice r off len.
 Proof. intros H. unfold slice. f_equal.
   rewrite Z2Nat.inj_add by (try apply Zlength_nonneg; lia). rewrite to_nat_Zlength.
-  rewrite skipn_app. rewrite skipn_all2 by lia. cbn [app]. f_equal. lia. Qed.
+  rewrite skipn_app. rewrite skipn_all2 by (apply Nat.le_add_r). cbn [app]. f_equal.
+  rewrite Nat.add_comm. apply Nat.add_sub. Qed.
 
 Lemma slice_here' a r n : n = Zlength a -> slice (a ++ r) 0 n = a.
 Proof. intros ->. apply slice_here. Qed.
